@@ -2,11 +2,11 @@ PROPS["C17"] = {
     "title": "Scalar digit recodings preserve the value within their digit bounds",
     "level": "exploration",
     "technique": ("property-based testing (rapid) against exact math/big reconstruction and textbook reference recodings; "
-                  "window-structured carry-chain generators; exhaustive enumeration of a 13-bit sub-domain at the word seams and of the width parameter"),
+                  "window-structured carry-chain generators; exhaustive enumeration of a 12-bit sub-domain at the word seams and of the width parameter"),
     "level_text": ("Generated-input search: for every generated 255-bit scalar the bit decomposition, the width-w NAF for every w in 2..8, "
                    "the signed radix-16 form and the signed radix-2^w form for w = 6, 7, 8 are reconstructed as exact integers (not mod L) "
                    "and every digit is compared with its documented range, spacing, size hint and terminal-carry position, and with a "
-                   "big-integer textbook recoding. Plus complete enumeration of all 13-bit values at nine bit offsets and of all width arguments 0..130. "
+                   "big-integer textbook recoding. Plus complete enumeration of all 12-bit values at nine bit offsets and of all width arguments 0..130. "
                    "Does not prove absence for the full 2^255 domain."),
     "level_note": "Trusted: math/big, the textbook recodings in verifref (validated against the published width-5 NAF vector), rapid.",
     "rule": ("rapid-generated 255-bit values: shared boundary catalogue (kL+e, 2^k+-e, 2^k-1, nibble patterns, word seams, limbs, uniform reduced/unreduced) "
@@ -18,9 +18,9 @@ PROPS["C17"] = {
     "units": [{
         "pkg": "curve/scalar", "configs": {"quick": ["default", "force32bit"], "thorough": ["default", "purego", "force32bit"]},
         "tests": {
-            "TestC17NAF": T(160000, 4000000),
-            "TestC17Radix16": T(120000, 3000000),
-            "TestC17Radix2w": T(120000, 3000000),
+            "TestC17NAF": T(120000, 4000000),
+            "TestC17Radix16": T(100000, 3000000),
+            "TestC17Radix2w": T(100000, 3000000),
             "TestC17Bits": T(40000, 1000000),
             "TestC17Small": LIST(),
             "TestC17Widths": LIST(),
